@@ -26,7 +26,7 @@ func runFuzz(c *core.Ctx, r *rec, idx int) {
 	fb := flatbuffers.NewBuilder(2048)
 	n := c.Pick(9000, 60000)
 	junk := []string{",", " ", "=", "\\", "\"", "\n", "#", "\\ ", "\\,", "\\=", ",,", "  ", "==", "i", "t", "NaN", "Inf", "|", "\x00", "\xff", "é", "1e999", "-", "=i ", "=u,", "=I "}
-	for k := 0; k < n; k++ {
+	for k := 0; k < n && !r.giveUp(); k++ {
 		format := []string{fmtLine, fmtLine, fmtFlat, fmtProto}[g.r.Intn(4)]
 		env := g.env(format == fmtLine)
 		rows := 1 + g.r.Intn(5)
